@@ -10,6 +10,7 @@ from .state import ExcInfo, Place, State
 from .symex import Entity, normal
 from .types import (TBool, TFun, TInt, TMap, TNone, TOpaque, TOpt, TRef, TSeq, TStr,
                     TTuple, TUnion, join, parse_type)
+from .values import PathEnds
 from .values import (NONE, SV, OutsideSubset, TBottom, TypeMismatch, box, coerce, fresh,
                      merge, mk_bool, mk_int, mk_str, named, unbox)
 
@@ -394,8 +395,16 @@ class ContractMixin:
             return outs
         if name == 'implies':
             outs = []
-            for s2, (a, b) in self.eval_many(st, e.args):
-                outs.append((s2, SV(TBool, z3.Implies(self.truthy(s2, a), self.truthy(s2, b)))))
+            for s2, a in self.eval(st, e.args[0]):
+                ta = self.truthy(s2, a)
+                if z3.is_false(z3.simplify(ta)):
+                    outs.append((s2, SV(TBool, z3.BoolVal(True))))     # consequent may be ill-typed here
+                    continue
+                try:
+                    for s3, b in self.eval(s2, e.args[1]):
+                        outs.append((s3, SV(TBool, z3.Implies(ta, self.truthy(s3, b)))))
+                except PathEnds:
+                    raise OutsideSubset('ill-typed consequent of implies() in a contract clause')
             return outs
         if name in ('forall', 'exists'):
             # forall(lambda i: P(i))  - i ranges over int;  forall(T, lambda x: ..) not needed
@@ -436,6 +445,34 @@ class ContractMixin:
                     outs.append((s2, SV(TBool, z3.Or(v.ty.is_none(v.t), v.ty.val(v.t) >= self.old_state.alloc))))
                 else:
                     outs.append((s2, SV(TBool, v.t >= self.old_state.alloc)))
+            return outs
+        if name == 'invariant_of':
+            # the class invariants of another object (representation invariant as a predicate)
+            outs = []
+            for s2, v in self.eval(st, e.args[0]):
+                v = self.need_value(v)
+                terms = []
+                for cl in self.classes.invariants(v.ty.cls):
+                    tmp = s2.copy()
+                    tmp.env = dict(s2.env)
+                    tmp.env['self'] = v
+                    terms.append(self.eval_bool_total(tmp, parse_expr(cl.expr)))
+                    for f in tmp.facts:
+                        s2.fact(f)
+                outs.append((s2, SV(TBool, z3.And(terms) if terms else z3.BoolVal(True))))
+            return outs
+        if name == 'is_alt':
+            outs = []
+            for s2, v in self.eval(st, e.args[0]):
+                v = self.need_value(v)
+                outs.append((s2, SV(TBool, v.ty.is_tag(e.args[1].value, v.t))))
+            return outs
+        if name == 'alt':
+            outs = []
+            for s2, v in self.eval(st, e.args[0]):
+                v = self.need_value(v)
+                tag = e.args[1].value
+                outs.append((s2, unbox(v.ty.alt(tag), v.ty.get(tag, v.t))))
             return outs
         if name == 'cast':
             outs = []
